@@ -3,6 +3,7 @@ package main
 import (
 	"encoding/json"
 	"fmt"
+	"strings"
 
 	stackage "github.com/JesseCoretta/go-stackage"
 )
@@ -10,16 +11,21 @@ import (
 // C19 — Defrag removes every nil gap and nothing else (Engine B).
 
 type c19Case struct {
-	Len   int    `json:"len"`
-	Mask  int    `json:"nonnil_mask"` // bit i set = slot i non-nil
-	Limit int    `json:"scan_limit"`  // 0 = default
-	Neg   bool   `json:"neg"`
-	Fwd   bool   `json:"fwd"`
-	Place string `json:"placement"` // top, in-stack, in-cond, alias, ptr-alias, in-cond-alias
-	Kind  string `json:"kind"`
+	Len    int    `json:"len"`
+	Mask   int    `json:"nonnil_mask"` // bit i set = slot i non-nil
+	Limit  int    `json:"scan_limit"`  // 0 = default
+	Neg    bool   `json:"neg"`
+	Fwd    bool   `json:"fwd"`
+	Place  string `json:"placement"` // top, in-stack, in-cond, alias, ptr-alias, in-cond-alias
+	Kind   string `json:"kind"`
+	PreErr bool   `json:"pre_existing_error,omitempty"` // an earlier operation left an error in the stack
+	Long   string `json:"long_pattern,omitempty"`       // run-length description of a long pattern, e.g. "1,50x0,1,45x0"
 }
 
 func (cs c19Case) pattern() string {
+	if cs.Long != "" {
+		return cs.Long
+	}
 	b := make([]byte, cs.Len)
 	for i := range b {
 		b[i] = '0'
@@ -93,7 +99,8 @@ func c19Classify(got, want []any) string {
 // tree's defrag/implode/verifyImplode compute for a stack holding vals (scan limit max, index
 // options neg/fwd). It is used ONLY to recognise the recorded finding precisely: a violation whose
 // outcome equals this model's is the known one ("as-recorded"); any other wrong outcome is new.
-func pinnedDefrag(vals []any, max int, neg, fwd bool) (out []any, errSet bool) {
+func pinnedDefrag(vals []any, max int, neg, fwd bool, preErr ...bool) (out []any, errSet bool) {
+	had := len(preErr) > 0 && preErr[0]
 	raw := append([]any{"cfg"}, vals...)
 	ulen := func() int { return len(raw) - 1 }
 	index := func(i int) (any, bool) {
@@ -132,7 +139,7 @@ func pinnedDefrag(vals []any, max int, neg, fwd bool) (out []any, errSet bool) {
 		spat[i] = 1
 	}
 	if start == -1 || max <= start {
-		return raw[1:], false
+		return raw[1:], had // nothing done: an earlier error stays
 	}
 	tpat := make([]int, n)
 	tpat[0] = 1
@@ -168,8 +175,31 @@ func pinnedDefrag(vals []any, max int, neg, fwd bool) (out []any, errSet bool) {
 	return raw[1:], false
 }
 
+// longValues expands a run-length description ("1,50x0,1" = value, fifty nils, value).
+func longValues(desc string) []any {
+	var out []any
+	for _, part := range strings.Split(desc, ",") {
+		n, bit := 1, part
+		if i := strings.Index(part, "x"); i >= 0 {
+			fmt.Sscanf(part[:i], "%d", &n)
+			bit = part[i+1:]
+		}
+		for k := 0; k < n; k++ {
+			if bit == "1" {
+				out = append(out, fmt.Sprintf("v%d", len(out)))
+			} else {
+				out = append(out, nil)
+			}
+		}
+	}
+	return out
+}
+
 func c19Run(c *Ctx, cs c19Case, count bool) {
 	vals := patternValues(cs.Len, cs.Mask, "v")
+	if cs.Long != "" {
+		vals = longValues(cs.Long)
+	}
 	target := newStackKind(cs.Kind)
 	if cs.Neg {
 		target.SetNegativeIndices(true)
@@ -178,6 +208,9 @@ func c19Run(c *Ctx, cs c19Case, count bool) {
 		target.SetForwardIndices(true)
 	}
 	target.Push(vals...)
+	if cs.PreErr {
+		target.SetErr(errCat)
+	}
 	var want []any
 	for _, v := range vals {
 		if v != nil {
@@ -234,7 +267,7 @@ func c19Run(c *Ctx, cs c19Case, count bool) {
 	} else {
 		p = noPanic(func() { recv.Defrag() })
 	}
-	size := cs.Len*4 + len(cs.Place)
+	size := cs.Len*4 + len(cs.Place) + len(cs.Long)*10
 	if p != "" {
 		c.Violation("panic:"+cs.Place, fmt.Sprintf("Defrag panicked on %s: %s", jsonString(cs), p), cs, size)
 		return
@@ -248,7 +281,7 @@ func c19Run(c *Ctx, cs c19Case, count bool) {
 	if lim <= 0 {
 		lim = 50
 	}
-	pinGot, pinErr := pinnedDefrag(append([]any{}, vals...), lim, cs.Neg, cs.Fwd)
+	pinGot, pinErr := pinnedDefrag(append([]any{}, vals...), lim, cs.Neg, cs.Fwd, cs.PreErr)
 	rec := func(cls string, isErr bool) string {
 		// the recorded finding: same wrong content (and error state) as the pinned tree produces
 		if sameList(got, pinGot) && (target.Err() != nil) == pinErr {
@@ -256,7 +289,7 @@ func c19Run(c *Ctx, cs c19Case, count bool) {
 		}
 		return pre + cls
 	}
-	hasNil := cs.Mask != (1<<cs.Len)-1
+	hasNil := cs.Mask != (1<<cs.Len)-1 || cs.Long != ""
 	if !hasNil {
 		after := dumpKey(recv)
 		if cs.Place == "in-cond-alias" {
@@ -332,13 +365,40 @@ func c19Cases(c *Ctx) []c19Case {
 					if (opt.neg || opt.fwd) && (lim != 0 || n > maxLen-2) {
 						continue
 					}
-					out = append(out, c19Case{n, mask, lim, opt.neg, opt.fwd, "top", "LIST"})
+					out = append(out, c19Case{n, mask, lim, opt.neg, opt.fwd, "top", "LIST", false, ""})
+					if mask != (1<<n)-1 && !opt.neg && !opt.fwd && (lim == 0 || lim == 3) && n <= nestLen+2 {
+						out = append(out, c19Case{n, mask, lim, false, false, "top", "LIST", true, ""})
+					}
 				}
 				if n <= nestLen && (lim == 0 || lim == 3) {
 					for _, pl := range []string{"top-mutex", "in-stack", "alias", "ptr-alias", "in-cond", "in-cond-only", "in-cond-alias", "deep"} {
-						out = append(out, c19Case{n, mask, lim, false, false, pl, "AND"})
+						out = append(out, c19Case{n, mask, lim, false, false, pl, "AND", false, ""})
+						if mask != (1<<n)-1 && n <= 4 && lim == 0 {
+							out = append(out, c19Case{n, mask, lim, false, false, pl, "AND", true, ""})
+						}
 					}
 				}
+			}
+		}
+	}
+	// long patterns: nil runs of 50 and more with a scan limit above the default of 50, in every placement
+	for _, long := range []string{"1,50x0,1,45x0", "51x0,1", "1,55x0,1", "1,49x0,1,2x0,1", "2x1,52x0,3x1,1x0"} {
+		for _, lim := range []int{0, 60, 100} {
+			run := 0
+			for _, v := range longValues(long) {
+				if v == nil {
+					run++
+				}
+			}
+			if lim == 0 && run >= 50 {
+				continue // the default limit is 50: the property does not speak about longer runs
+			}
+			for _, pl := range []string{"top", "top-mutex", "in-stack", "alias", "ptr-alias", "in-cond", "in-cond-only", "in-cond-alias", "deep"} {
+				kind := "AND"
+				if pl == "top" {
+					kind = "LIST"
+				}
+				out = append(out, c19Case{0, 0, lim, false, false, pl, kind, false, long})
 			}
 		}
 	}
